@@ -141,6 +141,12 @@ fn parse_hgignore(
         let reader = BufReader::new(file);
         reader
             .lines()
+            // what cannot be read (a directory named by subinclude, a failing device) ends
+            // here: the iterator would report the same error for ever
+            .map_while(|line| match line {
+                Err(ref err) if err.kind() != std::io::ErrorKind::InvalidData => None,
+                line => Some(line),
+            })
             .filter(|line| match line {
                 Ok(line) => !line.trim().is_empty() && !line.starts_with("#"),
                 _ => false,
